@@ -321,7 +321,7 @@ def run_verus(path, flags=(), rlimit=30, threads=16, log_air=False, timeout=1800
 
 def _run_verus(path, flags=(), rlimit=30, threads=16, log_air=False, timeout=1800):
     cmd = ['verus', path, '--output-json', '--time-expanded', '--error-format=json',
-           '--rlimit', str(rlimit), '--num-threads', str(threads), '--multiple-errors', '8'] + list(flags)
+           '--rlimit', str(rlimit), '--num-threads', str(threads), '--multiple-errors', os.environ.get('KV_MULTIPLE_ERRORS', '8')] + list(flags)
     logdir = None
     if log_air:
         logdir = path + '.vlog'
@@ -363,6 +363,22 @@ VERIF_FAIL = [
     'precondition not satisfied', 'requires not satisfied',
 ]
 UNDECIDED_PAT = ['Resource limit', 'rlimit', 'timed out', 'solver', 'unknown']
+
+
+_FRAGILE = None
+
+
+def load_fragile():
+    """contracts/fragile.json: per unit and function, the labelled clauses that need the anchored proof hints of that
+    function ('*': the whole function, e.g. it runs out of resources without them)."""
+    global _FRAGILE
+    if _FRAGILE is None:
+        p = os.path.join(VERIF, 'contracts', 'fragile.json')
+        try:
+            _FRAGILE = json.load(open(p))
+        except (OSError, ValueError):
+            _FRAGILE = {}
+    return _FRAGILE
 
 
 def classify(unit, res):
@@ -442,6 +458,24 @@ def classify(unit, res):
     for ln in res['stderr_other']:
         if 'rlimit' in ln or 'Resource limit' in ln:
             undecided.append(ln)
+    hoff = getattr(unit, 'hints_off', None) or {}
+    if hoff:
+        fragile = load_fragile().get(unit.name, {})
+        kept = []
+        for f in failures:
+            k = next((k for k in hoff if f['fn'] and f['fn'] == k), None)
+            names = [l.split(':', 1)[1] if ':' in l else l for l in f['labels']]
+            if k is None or f.get('probe'):
+                kept.append(f)
+            elif k in fragile and names and '*' not in fragile[k] and not any(n in fragile[k] for n in names):
+                # the clause is proved WITHOUT the proof hints on the unchanged tree (contracts/fragile.json, written by
+                # tools/fragile.py): its failure does not come from the lost hints
+                f['note'] = 'proof hints of this function were dropped (%s); this clause does not depend on them' % hoff[k]
+                kept.append(f)
+            else:
+                undecided.append('proof hints of %s were dropped (%s) and %s (%s) did not go through without them: not attributable'
+                                 % (k, hoff[k], f['labels'] or 'an unlabelled obligation', f['message']))
+        failures = kept
     return failures, undecided
 
 
